@@ -925,7 +925,8 @@ Qed.
         variant of MendB ([LostB]: LoopInv, MendL with the ADD among the pending requests);
       - [C01_lost_detected]: for the lost member that has been silent longest, this happens within detect_rounds
         healthy rounds.
-    NOT PROVED (what is missing for C01_heal_single_failure): the rounds after that, with the lost member still a
+    PROVED LATER IN THIS FILE (stages (a)-(d) and the end-to-end [C01_heal_single_failure], FleetLostBProofs.v); at the time
+    this block was written the following was still missing: the rounds after that, with the lost member still a
     (failed) member.  The event closures exist for them ([LostB] is closed under reports / execs / catch-up / ticks,
     FleetLostProofs lostb_reports, lostx_execs, lostx_learns, lostx_ticks: the ADD is applied or dropped); what is
     missing is the leader's decision, round by round, for a view entry with a failed member that cannot be restored:
@@ -1062,7 +1063,8 @@ Theorem C01_lost_stage_add_applied :
 Proof. exact lost_stage_add_applied. Qed.
 Print Assumptions C01_lost_stage_add_applied.
 
-(* stage (b), first round: the view catches up. From StageB the round (same hypotheses) ends - for every allowed outcome
+(* stage (b), first round: the view catches up. No spare NodeHost is needed from here on (no ADD is due in these
+   rounds, so errNotEnoughNodeHost cannot be answered: FleetHealProofs.error_cause). From StageB the round ends - for every allowed outcome
    but OCrash - in StageC L s0 f0 x t: every view entry is current, the new member x of s0 (NodeHost t) is shown as
    waiting (never reported, first seen this round), the join-CREATE for x is pending for t (sc_join), x has no data
    yet, every other pending request is a leftover; the memberships are unchanged. *)
@@ -1070,7 +1072,7 @@ Theorem C01_lost_stage_join :
   forall (L : N -> N -> Prop) (P : params), (forall s rid, L s rid \/ ~ L s rid) ->
   forall (s0 f0 : N) (st st' : fstate) (plogs : N -> bool) (nticks : nat) (o : outcome),
   StageB L s0 f0 st -> (forall a, plogs a = true) -> N.of_nat nticks * p_step P < p_ttl P ->
-  (forall s, is_Some (f_hist st !! s) -> exists a, spare st a s) -> o <> OCrash ->
+  o <> OCrash ->
   (forall st4, pre_schedule P plogs nticks st = Some st4 -> fresh_ok st4 (ESchedule o)) ->
   healthy_round P plogs nticks o st = Some st' ->
   exists b x t, o = OBatch b /\ StageC L s0 f0 x t st' /\ f_hist st' = f_hist st /\
@@ -1086,7 +1088,7 @@ Theorem C01_lost_stage_join_started :
   forall (L : N -> N -> Prop) (P : params), (forall s rid, L s rid \/ ~ L s rid) ->
   forall (s0 f0 x t : N) (st st' : fstate) (plogs : N -> bool) (nticks : nat) (o : outcome),
   StageC L s0 f0 x t st -> (forall a, plogs a = true) -> N.of_nat nticks * p_step P < p_ttl P ->
-  (forall s, is_Some (f_hist st !! s) -> exists a, spare st a s) -> o <> OCrash ->
+  o <> OCrash ->
   (forall st4, pre_schedule P plogs nticks st = Some st4 -> fresh_ok st4 (ESchedule o)) ->
   healthy_round P plogs nticks o st = Some st' ->
   exists b, o = OBatch b /\ StageD L s0 f0 x t st' /\ f_hist st' = f_hist st /\
@@ -1103,7 +1105,7 @@ Theorem C01_lost_stage_delete :
   forall (L : N -> N -> Prop) (P : params), (forall s rid, L s rid \/ ~ L s rid) ->
   forall (s0 f0 x t : N) (st st' : fstate) (plogs : N -> bool) (nticks : nat) (o : outcome),
   StageD L s0 f0 x t st -> (forall a, plogs a = true) -> N.of_nat nticks * p_step P < p_ttl P ->
-  (forall s, is_Some (f_hist st !! s) -> exists a, spare st a s) -> o <> OCrash ->
+  o <> OCrash ->
   (forall st4, pre_schedule P plogs nticks st = Some st4 -> fresh_ok st4 (ESchedule o)) ->
   p_ttl P < d_tick (f_db st) - mem_tick st s0 f0 ->
   healthy_round P plogs nticks o st = Some st' ->
@@ -1123,7 +1125,7 @@ Theorem C01_lost_stage_delete_applied :
   forall (L : N -> N -> Prop) (P : params), (forall s rid, L s rid \/ ~ L s rid) ->
   forall (s0 f0 x t : N) (st st' : fstate) (plogs : N -> bool) (nticks : nat) (o : outcome),
   StageE L s0 f0 x t st -> (forall a, plogs a = true) -> N.of_nat nticks * p_step P < p_ttl P ->
-  (forall s, is_Some (f_hist st !! s) -> exists a, spare st a s) -> o <> OCrash ->
+  o <> OCrash ->
   (forall st4, pre_schedule P plogs nticks st = Some st4 -> fresh_ok st4 (ESchedule o)) ->
   healthy_round P plogs nticks o st = Some st' ->
   exists b, o = OBatch b /\ MendB st' /\ (forall a q, nonout st' a q -> mharmless (f_hist st') a q) /\
@@ -1157,8 +1159,10 @@ Print Assumptions C01_lost_round_stagea.
     st is of class Lost with exactly one lost member (s0, f0): a current member whose NodeHost is up but has none of its
     data (disk replaced), every other member runs, the fleet is otherwise calm. Hypotheses, all explicit: every round
     of the run is healthy (every NodeHost reports with its persisted log, delivers, executes; Raft catches up; the
-    leader ticks), nticks * step < ttl, and - the bundle lost_hyps, per round - a spare NodeHost exists for every
-    shard, the ids drawn are fresh, and the outcome is not OCrash (the random source never returns replica id 0; the
+    leader ticks), nticks * step < ttl, and - the bundle lost_hyps2 (implied by lost_hyps: lost_hyps_hyps2), for each
+    of the first detect_rounds + 5 rounds (until the DELETE is applied; afterwards no ADD is scheduled any more) - the
+    ids drawn are fresh, the outcome is not OCrash, and - only until the replacement ADD is applied, i.e. while the
+    membership history of s0 still has its initial length - a spare NodeHost exists for every shard (the random source never returns replica id 0; the
     scheduler model allows OCrash whenever an ADD is due). Then, for EVERY sequence of allowed outcomes, after
     B = 2 * detect_rounds + 10 healthy rounds the fleet is in Mend and healed (every shard has its full set of running,
     reporting members; it stays healed by C01_heal_mend): at most detect_rounds rounds until the ADD is scheduled
@@ -1170,9 +1174,46 @@ Theorem C01_heal_single_failure :
   forall (plogs : N -> bool) (nticks : nat) (s0 f0 : N) (os : list outcome) (st st' : fstate),
   Lost L st -> (forall s f, L s f -> s = s0 /\ f = f0) -> L s0 f0 ->
   (forall a, plogs a = true) -> N.of_nat nticks * p_step P < p_ttl P -> (0 < nticks)%nat -> 0 < p_step P ->
-  lost_hyps P plogs nticks os st ->
+  lost_hyps2 P plogs nticks s0 (length (hist_of (f_hist st) s0)) (take (detect_rounds P nticks + 5) os) st ->
   (2 * detect_rounds P nticks + 10 <= length os)%nat ->
   healthy_rounds P plogs nticks os st = Some st' ->
   Mend st' /\ healed P st' = true.
 Proof. exact lost_heal_single_failure. Qed.
 Print Assumptions C01_heal_single_failure.
+
+(* the hypotheses of C01_heal_single_failure are satisfiable: checked by computation on the example fleet (canonical
+   outcomes, ids 7000 + round), 2 * detect_rounds + 10 = 24 rounds *)
+Example C01_heal_single_failure_computed :
+  match ex_lost, ex_lost_run (2 * detect_rounds ex_params 2 + 10) with
+  | Some st, Some (os, st') =>
+    lost_hyps2b ex_params (fun _ => true) 2 1 (length (hist_of (f_hist st) 1)) (take (detect_rounds ex_params 2 + 5) os) st
+    && bool_decide (healthy_rounds ex_params (fun _ => true) 2 os st = Some st')
+    && Nat.leb (2 * detect_rounds ex_params 2 + 10) (length os) && healed ex_params st'
+  | _, _ => false
+  end = true.
+Proof. vm_compute. reflexivity. Qed.
+
+(* the hypotheses of C01_heal_single_failure hold on the example (a 3-replica shard on 4 NodeHosts, the disk of member 1
+   replaced), so does its conclusion *)
+Example C01_heal_single_failure_inhabited :
+  exists st os st', ex_lost = Some st /\ Lost (lostl ex_ll) st /\
+    (forall s f, lostl ex_ll s f -> s = 1 /\ f = 1) /\ lostl ex_ll 1 1 /\
+    lost_hyps2 ex_params (fun _ => true) 2 1 (length (hist_of (f_hist st) 1)) (take (detect_rounds ex_params 2 + 5) os) st /\
+    (2 * detect_rounds ex_params 2 + 10 <= length os)%nat /\
+    healthy_rounds ex_params (fun _ => true) 2 os st = Some st' /\ Mend st' /\ healed ex_params st' = true.
+Proof.
+  destruct C01_lost_inhabited as (st & os0 & st0' & Hst & HL & _).
+  pose proof C01_heal_single_failure_computed as H. unfold ex_lost_run in H. rewrite Hst in H.
+  destruct (canon_run ex_params (fun _ => true) 2 (fun i _ => 7000 + N.of_nat i) (2 * detect_rounds ex_params 2 + 10) st) as [[os st']|] eqn:Er; [|discriminate H].
+  apply andb_true_iff in H as [H Hheal]. apply andb_true_iff in H as [H Hlen]. apply andb_true_iff in H as [Hhyp Hr].
+  apply bool_decide_eq_true in Hr. apply Nat.leb_le in Hlen. apply lost_hyps2b_sound in Hhyp.
+  assert (Hsingle : forall s f, lostl ex_ll s f -> s = 1 /\ f = 1).
+  { intros s f Hl. unfold lostl, ex_ll in Hl. apply elem_of_list_singleton in Hl. injection Hl as -> ->. split; reflexivity. }
+  assert (Hl0 : lostl ex_ll 1 1) by (unfold lostl, ex_ll; apply elem_of_list_here).
+  exists st, os, st'. split; [exact Hst|]. split; [exact HL|]. split; [exact Hsingle|]. split; [exact Hl0|]. split; [exact Hhyp|]. split; [exact Hlen|]. split; [exact Hr|].
+  apply (C01_heal_single_failure (lostl ex_ll) ex_params (lostl_dec ex_ll) (fun _ => true) 2 1 1 os st st' HL Hsingle Hl0); try assumption.
+  - intros a. reflexivity.
+  - vm_compute. reflexivity.
+  - apply Nat.lt_0_2.
+  - vm_compute. reflexivity.
+Qed.
